@@ -301,11 +301,58 @@ fn ground(prog: &Program, r: &mut Rng, depth: usize) -> String {
     t
 }
 
+/// Failing commands of the compound kind: ONE rule iteration (or top-level action) that applies a
+/// union AND fails — by an explicit panic, by the rebuild raising a `:no-merge` conflict for the two
+/// merged keys of `nmP` (which hold different values since P), or by a failing primitive. The
+/// rebuild that runs before the error is reported can itself raise a second error; that one must
+/// not stay parked in state shared with the pushed snapshot / the other clone.
+fn compound_failure(kind: usize, i: usize, f0: &str, tag: &str) -> Vec<Item> {
+    let tx = |s: String| Item::Text(s);
+    let rs = format!("boom{tag}{i}");
+    match kind % 6 {
+        0 => vec![
+            tx(format!("(ruleset {rs})")),
+            tx(format!("(rule () ((union (K0) (K1)) (panic \"boom\")) :ruleset {rs})")),
+            tx(format!("(run {rs} 1)")),
+        ],
+        1 => vec![
+            tx(format!("(ruleset {rs})")),
+            tx(format!("(rule () ((union (K0) (K1))) :ruleset {rs})")),
+            tx(format!("(run {rs} 1)")),
+        ],
+        2 => vec![tx("(union (K0) (K1))".into())],
+        3 => vec![
+            tx(format!("(ruleset {rs})")),
+            tx(format!("(relation Dz{tag}{i} (i64))")),
+            tx(format!("(rule () ((union (K0) (K1)) (Dz{tag}{i} (/ 1 0))) :ruleset {rs})")),
+            tx(format!("(run {rs} 1)")),
+        ],
+        4 => vec![
+            tx(format!("(ruleset {rs})")),
+            tx(format!("(rule ((= v0 ({f0} v1))) ((union (K0) (K1)) (union v0 v1) (panic \"boom\")) :ruleset {rs})")),
+            tx(format!("({f0} (K0))")),
+            tx(format!("(run {rs} 1)")),
+        ],
+        _ => vec![tx("(union (K0) (K1))\n(panic \"after a conflicting union\")".into())],
+    }
+}
+
+/// commands that run rules: a stale error parked in shared state surfaces in the next one of these
+fn rule_running_probe(r: &mut Rng, f0: &str) -> Item {
+    Item::Text(match r.below(5) {
+        0 => "(check (= (nmP (K0)) 1))".to_string(),
+        1 => "(run 1)".to_string(),
+        2 => "(extract (K0))".to_string(),
+        3 => format!("({f0} (K1))"),
+        _ => "(check (= (nmP (K1)) 2))".to_string(),
+    })
+}
+
 fn gen_q_body(prog: &Program, r: &mut Rng, names: &mut Names, db: &mut Vec<Item>, len: usize, depth: usize, decls: &mut Vec<QDecl>, fault_ok: bool) -> Vec<Item> {
     let f0 = prog.decls.iter().find(|d| d.kind == Kind::Ctor && d.args == vec![Sort::S]).map(|d| d.name.clone()).unwrap_or("F0".into());
     let mut out = Vec::new();
     for _ in 0..len {
-        let k = r.below(20);
+        let k = r.below(24);
         let i = names.next();
         let t1 = ground(prog, r, 2);
         let t2 = ground(prog, r, 2);
@@ -411,6 +458,7 @@ fn gen_q_body(prog: &Program, r: &mut Rng, names: &mut Names, db: &mut Vec<Item>
                     }
                 }
             }
+            20..=23 => out.extend(compound_failure(r.below(6), i, &f0, "q")),
             13 => out.push(Item::ApiSet("hP0".into(), vec![r.below(3) as i64], r.below(20) as i64)),
             14 => out.push(tx(format!("(set (hP0 {}) {})", r.below(3), r.below(20)))),
             _ => {
@@ -438,6 +486,9 @@ fn gen_triple(seed: u64, idx: u64) -> Triple {
         Item::Text("(function hP0 (i64) i64 :merge (max old new))".into()),
         Item::Text("(function hP1 (i64 i64) i64 :merge (max old new))".into()),
         Item::Text("(set (hP0 1) 10)".into()),
+        Item::Text("(function nmP (S) i64 :no-merge)".into()),
+        Item::Text("(set (nmP (K0)) 1)".into()),
+        Item::Text("(set (nmP (K1)) 2)".into()),
     ];
     let mut depth_p = 0;
     for (i, it) in texts[..np.min(texts.len())].iter().enumerate() {
@@ -462,6 +513,10 @@ fn gen_triple(seed: u64, idx: u64) -> Triple {
     let mut rr: Vec<Item> = Vec::new();
     let mut pending: Vec<QDecl> = decls.clone();
     let t1 = ground(&prog, &mut r, 2);
+    // R starts with commands that run rules, so that an error left parked by Q surfaces
+    let f0r = prog.decls.iter().find(|d| d.kind == Kind::Ctor && d.args == vec![Sort::S]).map(|d| d.name.clone()).unwrap_or("F0".into());
+    rr.push(rule_running_probe(&mut r, &f0r));
+    rr.push(rule_running_probe(&mut r, &f0r));
     rr.push(Item::Text("(print-size)".into()));
     for it in rdb {
         if !pending.is_empty() && r.chance(2, 3) {
@@ -762,7 +817,7 @@ fn gen_pair_seq(prog: &Program, r: &mut Rng, own: &str, db: Vec<Item>, names: &m
         let pool = if r.chance(1, 3) { "cs" } else { own };
         let i = if pool == "cs" { r.below(3) } else { names.next() };
         let tx = |s: String| Item::Text(s);
-        match r.below(16) {
+        match r.below(19) {
             0 | 1 => {
                 let ar = r.range(1, 2);
                 let sig = if ar == 1 { "(i64)" } else { "(i64 i64)" };
@@ -809,6 +864,16 @@ fn gen_pair_seq(prog: &Program, r: &mut Rng, own: &str, db: Vec<Item>, names: &m
             }
             10 => out.push(tx(format!("(run {})", r.range(1, 2)))),
             11 => out.push(tx("(print-size)".into())),
+            14 => {
+                let f0 = prog.decls.iter().find(|d| d.kind == Kind::Ctor && d.args == vec![Sort::S]).map(|d| d.name.clone()).unwrap_or("F0".into());
+                let j = names.next();
+                out.extend(compound_failure(r.below(6), j, &f0, own));
+                out.push(rule_running_probe(r, &f0));
+            }
+            15 => {
+                let f0 = prog.decls.iter().find(|d| d.kind == Kind::Ctor && d.args == vec![Sort::S]).map(|d| d.name.clone()).unwrap_or("F0".into());
+                out.push(rule_running_probe(r, &f0));
+            }
             12 if d == 0 => {
                 out.push(tx("(push)".into()));
                 d += 1;
@@ -845,6 +910,9 @@ fn gen_pair(seed: u64, idx: u64) -> Pair {
         Item::Text("(function hP0 (i64) i64 :merge (max old new))".into()),
         Item::Text("(function hP1 (i64 i64) i64 :merge (max old new))".into()),
         Item::Text("(set (hP0 1) 10)".into()),
+        Item::Text("(function nmP (S) i64 :no-merge)".into()),
+        Item::Text("(set (nmP (K0)) 1)".into()),
+        Item::Text("(set (nmP (K1)) 2)".into()),
     ];
     let c1 = np.min(texts.len());
     let c2 = (np + na).min(texts.len());
@@ -888,6 +956,21 @@ fn gen_pair(seed: u64, idx: u64) -> Pair {
         cmds.push((x, Item::ApiLookup(n.clone(), vec![1])));
         cmds.push((x, Item::Text(format!("(print-size {n})"))));
         cmds.push((y, Item::ApiSize(n.clone())));
+    }
+    if r.chance(1, 3) {
+        // one copy fails in the compound way (union + error in one iteration); the OTHER copy then
+        // runs rules: nothing of the first copy's failure may surface there
+        let (x, y) = if r.chance(1, 2) { (Side::A, Side::B) } else { (Side::B, Side::A) };
+        let f0 = prog.decls.iter().find(|d| d.kind == Kind::Ctor && d.args == vec![Sort::S]).map(|d| d.name.clone()).unwrap_or("F0".into());
+        let at = r.below(cmds.len() + 1);
+        let rest = cmds.split_off(at);
+        for it in compound_failure(r.below(6), 900 + r.below(50), &f0, "t") {
+            cmds.push((x, it));
+        }
+        cmds.push((y, rule_running_probe(&mut r, &f0)));
+        cmds.push((y, rule_running_probe(&mut r, &f0)));
+        cmds.push((x, rule_running_probe(&mut r, &f0)));
+        cmds.extend(rest);
     }
     let probes = enumerate_probes(&prog, 3, 30, &[0, 1, 2]);
     let mut iprobes: Vec<Pat> = Vec::new();
@@ -1564,6 +1647,37 @@ fn do_pair(cx: &mut Ctx, seed: u64, idx: u64) {
     }
 }
 
+/// explicit text triple (corpus seeds): P;(push);Q;(pop);R versus P;R, per-command outcomes of R
+fn do_text_triple(cx: &mut Ctx, v: &serde_json::Value) {
+    cx.cases += 1;
+    *cx.family_hist.entry("ttriple".into()).or_insert(0) += 1;
+    let g = |k: &str| -> Vec<Item> { v[k].as_array().map(|a| a.iter().map(|x| Item::Text(x.as_str().unwrap().to_string())).collect()).unwrap_or_default() };
+    let (p, q, r) = (g("p"), g("q"), g("r"));
+    let mut a = EGraph::default();
+    let mut b = EGraph::default();
+    for it in &p {
+        exec(&mut a, it);
+        exec(&mut b, it);
+    }
+    exec(&mut a, &Item::Text("(push)".into()));
+    for it in &q {
+        exec(&mut a, it);
+    }
+    exec(&mut a, &Item::Text("(pop)".into()));
+    for (i, it) in r.iter().enumerate() {
+        let oa = exec(&mut a, it);
+        let ob = exec(&mut b, it);
+        if let Some((kind, d)) = compare(&oa, &ob) {
+            cx.viols.push(Viol {
+                what: format!("command {i} of R `{}` ({kind}): after P;(push);Q;(pop) it gave {d} (second: after P alone)", it.show()),
+                key: "C08-pushpop-outcome".into(),
+                input: v.clone(),
+            });
+            break;
+        }
+    }
+}
+
 fn replay_value(cx: &mut Ctx, v: &serde_json::Value, default_seed: u64) {
     let v = if v.get("violation").is_some() { &v["violation"]["input"] } else if v.get("input").is_some() { &v["input"] } else { v };
     let seed = v["seed"].as_u64().unwrap_or(default_seed);
@@ -1572,6 +1686,7 @@ fn replay_value(cx: &mut Ctx, v: &serde_json::Value, default_seed: u64) {
     match v["family"].as_str().unwrap_or("triple") {
         "triple" => do_triple(cx, seed, idx, &us("drop_q"), &us("drop_r"), false),
         "pair" => do_pair(cx, seed, idx),
+        "ttriple" => do_text_triple(cx, v),
         "mpair" => {
             let mp = MPair {
                 prefix: v["prefix"].as_array().unwrap().iter().map(MC::from_json).collect(),
